@@ -45,17 +45,25 @@ func JoinSecs(secs []*Sec) []byte {
 	return out
 }
 
-// CompressedSec builds the GUID-defined section (attribute "processing required") whose payload
-// is enc(kind, JoinSecs(kids)). extra > 0 puts that many bytes between the 24-byte header and
-// the payload (DataOffset = 24+extra).
-func CompressedSec(kind int, kids []*Sec, enc Enc, extra []byte) (*Sec, error) {
+// CompressedSec builds the GUID-defined section whose payload is enc(kind, JoinSecs(kids)), with the
+// given attribute word (bit 0 = "processing required": set -> fiano decodes the payload, whatever
+// the other bits are; clear -> the section is an opaque leaf although it carries a codec GUID).
+// extra > 0 puts that many bytes between the 24-byte header and the payload (DataOffset = 24+extra).
+func CompressedSec(kind int, kids []*Sec, enc Enc, extra []byte, attrs uint16) (*Sec, error) {
 	plain := JoinSecs(kids)
 	c, err := enc(kind, plain)
 	if err != nil {
 		return nil, err
 	}
-	return &Sec{Type: 0x02, GUID: CodecGUID(kind), GDAttrs: 1, GDExtra: extra, Body: c}, nil
+	return &Sec{Type: 0x02, GUID: CodecGUID(kind), GDAttrs: attrs, GDExtra: extra, Body: c}, nil
 }
+
+// DecodedAttrs are attribute words with the processing-required bit set (AUTH_STATUS_VALID and
+// reserved bits in all combinations that matter); OpaqueAttrs have it clear.
+var (
+	DecodedAttrs = []int{0x0001, 0x0001, 0x0003, 0x0003, 0x0101, 0x8001, 0x0005, 0xFFFF}
+	OpaqueAttrs  = []int{0x0000, 0x0002, 0x0100, 0xFFFE}
+)
 
 // COpts steers the C06 generator.
 type COpts struct {
@@ -64,6 +72,7 @@ type COpts struct {
 	Enc       Enc
 	DataOff   bool // allow DataOffset > 24 on compressed sections
 	PlainNest bool // also nest volumes in uncompressed FV-image sections
+	Opaque    bool // sometimes clear the processing-required bit of a compressed section (opaque leaf)
 }
 
 // Target names a file inside a nested volume (for the edit oracle).
@@ -156,7 +165,12 @@ func (g *cgen) compressed(kids []*Sec) *Sec {
 	if g.o.DataOff && g.r.Chance(1, 8) {
 		extra = g.r.Bytes(g.r.Pick(4, 8))
 	}
-	s, err := CompressedSec(kind, kids, g.o.Enc, extra)
+	attrs := uint16(DecodedAttrs[g.r.Intn(len(DecodedAttrs))])
+	if g.o.Opaque && g.r.Chance(1, 10) {
+		// a codec GUID without the processing-required bit: not decoded, kept byte for byte
+		attrs = uint16(OpaqueAttrs[g.r.Intn(len(OpaqueAttrs))])
+	}
+	s, err := CompressedSec(kind, kids, g.o.Enc, extra, attrs)
 	if err != nil {
 		g.err = err
 		return &Sec{Type: 0x19}
